@@ -23,6 +23,7 @@ import (
 	"path/filepath"
 	"reflect"
 	"runtime"
+	"strings"
 	"sync"
 	"time"
 
@@ -30,6 +31,7 @@ import (
 	"github.com/ChainSafe/sygma-relayer/chains/btc"
 	btcconfig "github.com/ChainSafe/sygma-relayer/chains/btc/config"
 	btclistener "github.com/ChainSafe/sygma-relayer/chains/btc/listener"
+	"github.com/ChainSafe/sygma-relayer/chains/evm/calls/consts"
 	evmevents "github.com/ChainSafe/sygma-relayer/chains/evm/calls/events"
 	"github.com/ChainSafe/sygma-relayer/chains/evm/listener/eventHandlers"
 	sublistener "github.com/ChainSafe/sygma-relayer/chains/substrate/listener"
@@ -42,6 +44,7 @@ import (
 	"github.com/centrifuge/go-substrate-rpc-client/v4/registry"
 	"github.com/centrifuge/go-substrate-rpc-client/v4/registry/parser"
 	"github.com/centrifuge/go-substrate-rpc-client/v4/types"
+	"github.com/ethereum/go-ethereum/accounts/abi"
 	"github.com/ethereum/go-ethereum/common"
 	ethTypes "github.com/ethereum/go-ethereum/core/types"
 	"github.com/rs/zerolog"
@@ -60,6 +63,14 @@ type Ev struct {
 	T  string `json:"t"` // rpcfail | head | handler | store | crash
 	H  int64  `json:"h,omitempty"`
 	Ok bool   `json:"ok,omitempty"`
+	// A failing handler event that reaches handler 0 (the repository's deposit event handler) fails
+	// the P-th node read of that handler (modulo the number of reads it makes: Bitcoin GetBlockHash,
+	// GetBlockVerboseTx; EVM FetchEventLogs; Substrate FetchEvents) with the error of class EC of
+	// the catalogue in errclass.go; a failing handler event that reaches a plain fake handler, an
+	// rpcfail event and a failing store event fail with the error of class EC.  The model does not
+	// see P / EC: it is told "the handler / the node / the store fails".
+	P  int `json:"p,omitempty"`
+	EC int `json:"ec,omitempty"`
 }
 
 type Cfg struct {
@@ -104,7 +115,8 @@ type Msg struct {
 	ID       string `json:"id"`
 	Dest     uint8  `json:"dest"`
 	Nonce    uint64 `json:"nonce"`
-	Resource string `json:"resource,omitempty"`
+	Resource string `json:"resource,omitempty"` // first byte of the resource id (hex)
+	RID      string `json:"rid,omitempty"`      // the whole resource id (hex)
 }
 
 const DomainID = uint8(1)
@@ -136,6 +148,7 @@ type Env struct {
 	done     chan string // receives "crash" | "exhausted" when the current lifetime ends
 	ended    bool
 	rpcCalls int
+	rpcErr   error
 
 	Deposits []Dep
 	groups   int // message groups the real handlers must have sent
@@ -203,14 +216,34 @@ func (e *Env) record(o Out) {
 // rpc: the node is asked for its head.
 func (e *Env) rpc() (int64, bool) {
 	ev := e.popL(kRPC)
+	if ev.T != "head" {
+		e.mu.Lock()
+		e.rpcErr = ErrClass(ev.EC)
+		e.mu.Unlock()
+	}
 	return ev.H, ev.T == "head"
+}
+
+// lastRPCErr is the error the failed head read is answered with (class Ev.EC of the rpcfail event).
+func (e *Env) lastRPCErr() error {
+	e.mu.Lock()
+	defer e.mu.Unlock()
+	if e.rpcErr == nil {
+		return errScript
+	}
+	return e.rpcErr
 }
 
 // handle: handler k is given [s, end]; returns whether it succeeds.
 func (e *Env) handle(k int, s, end int64) bool {
+	return e.handleEv(k, s, end).Ok
+}
+
+// handleEv is handle for handler 0: the caller also needs to know where and how to fail.
+func (e *Env) handleEv(k int, s, end int64) Ev {
 	ev := e.popL(kHandler)
 	e.record(Out{T: "handle", K: k, S: s, E: end, Ok: ev.Ok})
-	return ev.Ok
+	return ev
 }
 
 var errScript = errors.New("scripted failure")
@@ -234,7 +267,7 @@ func (k *kv) SetByKey(key []byte, value []byte) error {
 	ev := k.env.popL(kStore)
 	k.env.record(Out{T: "store", V: new(big.Int).SetBytes(value).Int64(), Ok: ev.Ok})
 	if !ev.Ok {
-		return errScript
+		return ErrClass(ev.EC)
 	}
 	k.data[string(key)] = append([]byte(nil), value...)
 	return nil
@@ -248,8 +281,8 @@ type rangeHandler struct {
 }
 
 func (h *rangeHandler) HandleEvents(s, e *big.Int) error {
-	if !h.env.handle(h.k, s.Int64(), e.Int64()) {
-		return errScript
+	if ev := h.env.handleEv(h.k, s.Int64(), e.Int64()); !ev.Ok {
+		return ErrClass(ev.EC)
 	}
 	return nil
 }
@@ -260,8 +293,8 @@ type blockHandler struct {
 }
 
 func (h *blockHandler) HandleEvents(b *big.Int) error {
-	if !h.env.handle(h.k, b.Int64(), b.Int64()) {
-		return errScript
+	if ev := h.env.handleEv(h.k, b.Int64(), b.Int64()); !ev.Ok {
+		return ErrClass(ev.EC)
 	}
 	return nil
 }
@@ -273,7 +306,7 @@ type evmClient struct{ env *Env }
 func (c *evmClient) LatestBlock() (*big.Int, error) {
 	h, ok := c.env.rpc()
 	if !ok {
-		return nil, errScript
+		return nil, c.env.lastRPCErr()
 	}
 	return big.NewInt(h), nil
 }
@@ -282,43 +315,62 @@ type nopMetrics struct{}
 
 func (nopMetrics) TrackBlockDelta(uint8, *big.Int, *big.Int) {}
 
-// evmFetcher is the eventHandlers.EventListener of the real DepositEventHandler (handler 0).
-type evmFetcher struct{ env *Env }
+// evmLogClient is the events.ChainClient under the repository's real events.Listener, which is the
+// eventHandlers.EventListener of the real DepositEventHandler (handler 0): the scripted handler
+// result decides whether eth_getLogs for the Deposit event succeeds.
+type evmLogClient struct {
+	env *Env
+	abi abi.ABI
+}
 
-func (f *evmFetcher) FetchDeposits(ctx context.Context, a common.Address, s, e *big.Int) ([]*evmevents.Deposit, error) {
-	if !f.env.handle(0, s.Int64(), e.Int64()) {
-		return nil, errScript
+func newEvmLogClient(env *Env) *evmLogClient {
+	a, err := abi.JSON(strings.NewReader(consts.BridgeABI))
+	if err != nil {
+		panic(err)
 	}
-	var out []*evmevents.Deposit
+	return &evmLogClient{env: env, abi: a}
+}
+
+// DepositLog is the log the bridge contract emits for a deposit.
+func DepositLog(a abi.ABI, block int64, dest uint8, nonce uint64, resource [32]byte) ethTypes.Log {
+	data, err := a.Events["Deposit"].Inputs.NonIndexed().Pack(dest, resource, nonce, []byte{}, []byte{})
+	if err != nil {
+		panic(err)
+	}
+	return ethTypes.Log{
+		Topics:      []common.Hash{evmevents.DepositSig.GetTopic(), {}},
+		Data:        data,
+		BlockNumber: uint64(block),
+	}
+}
+
+func (c *evmLogClient) FetchEventLogs(ctx context.Context, a common.Address, event string, s, e *big.Int) ([]ethTypes.Log, error) {
+	if event != string(evmevents.DepositSig) {
+		return nil, nil
+	}
+	ev := c.env.handleEv(0, s.Int64(), e.Int64())
+	if !ev.Ok {
+		return nil, ErrClass(ev.EC)
+	}
+	var out []ethTypes.Log
 	dests := map[uint8]bool{}
-	for _, d := range f.env.Deposits {
+	for _, d := range c.env.Deposits {
 		if d.Block >= s.Int64() && d.Block <= e.Int64() {
-			out = append(out, &evmevents.Deposit{DestinationDomainID: d.Dest, DepositNonce: d.Nonce, ResourceID: [32]byte{1}})
+			out = append(out, DepositLog(c.abi, d.Block, d.Dest, d.Nonce, [32]byte{1}))
 			dests[d.Dest] = true
 		}
 	}
-	f.env.mu.Lock()
-	f.env.groups += len(dests)
-	f.env.mu.Unlock()
+	c.env.mu.Lock()
+	c.env.groups += len(dests)
+	c.env.mu.Unlock()
 	return out, nil
 }
-func (f *evmFetcher) FetchKeygenEvents(context.Context, common.Address, *big.Int, *big.Int) ([]ethTypes.Log, error) {
-	return nil, nil
+func (c *evmLogClient) WaitAndReturnTxReceipt(common.Hash) (*ethTypes.Receipt, error) {
+	return nil, errors.New("unused")
 }
-func (f *evmFetcher) FetchFrostKeygenEvents(context.Context, common.Address, *big.Int, *big.Int) ([]ethTypes.Log, error) {
-	return nil, nil
-}
-func (f *evmFetcher) FetchRefreshEvents(context.Context, common.Address, *big.Int, *big.Int) ([]*evmevents.Refresh, error) {
-	return nil, nil
-}
-func (f *evmFetcher) FetchRetryV1Events(context.Context, common.Address, *big.Int, *big.Int) ([]evmevents.RetryV1Event, error) {
-	return nil, nil
-}
-func (f *evmFetcher) FetchRetryV2Events(context.Context, common.Address, *big.Int, *big.Int) ([]evmevents.RetryV2Event, error) {
-	return nil, nil
-}
-func (f *evmFetcher) FetchRetryDepositEvents(evmevents.RetryV1Event, common.Address, *big.Int) ([]evmevents.Deposit, error) {
-	return nil, nil
+func (c *evmLogClient) LatestBlock() (*big.Int, error) { return nil, errors.New("unused") }
+func (c *evmLogClient) BlockByNumber(ctx context.Context, n *big.Int) (*ethTypes.Block, error) {
+	return ethTypes.NewBlockWithHeader(&ethTypes.Header{Number: n, Time: 1700000000}), nil
 }
 
 type evmDepositHandler struct{}
@@ -341,7 +393,7 @@ func (c *subConn) GetFinalizedHead() (types.Hash, error) {
 	c.env.mu.Unlock()
 	h, ok := c.env.rpc()
 	if !ok && n%2 == 0 {
-		return types.Hash{}, errScript
+		return types.Hash{}, c.env.lastRPCErr()
 	}
 	if !ok {
 		c.head = -1 // GetBlock will fail instead
@@ -352,7 +404,7 @@ func (c *subConn) GetFinalizedHead() (types.Hash, error) {
 }
 func (c *subConn) GetBlock(types.Hash) (*types.SignedBlock, error) {
 	if c.head < 0 {
-		return nil, errScript
+		return nil, c.env.lastRPCErr()
 	}
 	return &types.SignedBlock{Block: types.Block{Header: types.Header{Number: types.BlockNumber(uint32(c.head))}}}, nil
 }
@@ -360,8 +412,8 @@ func (c *subConn) GetBlockHash(uint64) (types.Hash, error)            { return t
 func (c *subConn) GetBlockEvents(types.Hash) ([]*parser.Event, error) { return nil, nil }
 func (c *subConn) UpdateMetatdata() error                             { return nil }
 func (c *subConn) FetchEvents(s, e *big.Int) ([]*parser.Event, error) {
-	if !c.env.handle(0, s.Int64(), e.Int64()) {
-		return nil, errScript
+	if ev := c.env.handleEv(0, s.Int64(), e.Int64()); !ev.Ok {
+		return nil, ErrClass(ev.EC)
 	}
 	var out []*parser.Event
 	dests := map[uint8]bool{}
@@ -395,16 +447,26 @@ func (subDepositHandler) HandleDeposit(sourceID uint8, destID types.U8, nonce ty
 // BtcResources builds n bridge resources with distinct taproot addresses and resource ids
 // (resource i has id byte 0 = ids[i]) and a fee address.
 func BtcResources(ids []byte) ([]btcconfig.Resource, btcutil.Address) {
+	full := make([][32]byte, len(ids))
+	for i, id := range ids {
+		full[i] = [32]byte{id}
+	}
+	return BtcResourcesFull(full)
+}
+
+// BtcResourcesFull is BtcResources for arbitrary 32-byte resource ids (resource i has its own
+// taproot address, whatever its id).
+func BtcResourcesFull(ids [][32]byte) ([]btcconfig.Resource, btcutil.Address) {
 	params := &chaincfg.TestNet3Params
 	res := make([]btcconfig.Resource, len(ids))
 	for i, id := range ids {
 		key := make([]byte, 32)
-		key[0], key[31] = 0x40+byte(i), id
+		key[0], key[31] = 0x40+byte(i), byte(i)+1
 		addr, err := btcutil.NewAddressTaproot(key, params)
 		if err != nil {
 			panic(err)
 		}
-		res[i] = btcconfig.Resource{Address: addr, ResourceID: [32]byte{id}, FeeAmount: big.NewInt(1000)}
+		res[i] = btcconfig.Resource{Address: addr, ResourceID: id, FeeAmount: big.NewInt(1000)}
 	}
 	fee, err := btcutil.NewAddressWitnessPubKeyHash(make([]byte, 20), params)
 	if err != nil {
@@ -435,6 +497,7 @@ type btcConn struct {
 	head      int64
 	Resources []btcconfig.Resource
 	Fee       btcutil.Address
+	blockErr  error // scripted failure of the handler's second read (GetBlockVerboseTx)
 }
 
 var headMarker = chainhash.Hash{0xff, 0xfe}
@@ -449,7 +512,7 @@ func (c *btcConn) GetBestBlockHash() (*chainhash.Hash, error) {
 	c.env.mu.Unlock()
 	h, ok := c.env.rpc()
 	if !ok && n%2 == 0 {
-		return nil, errScript
+		return nil, c.env.lastRPCErr()
 	}
 	if !ok {
 		c.head = -1
@@ -462,8 +525,12 @@ func (c *btcConn) GetBestBlockHash() (*chainhash.Hash, error) {
 
 // GetBlockHash is the first call of the real handler's FetchEvents: the scripted handler result.
 func (c *btcConn) GetBlockHash(height int64) (*chainhash.Hash, error) {
-	if !c.env.handle(0, height, height) {
-		return nil, errScript
+	c.blockErr = nil
+	if ev := c.env.handleEv(0, height, height); !ev.Ok {
+		if ev.P%2 == 0 {
+			return nil, ErrClass(ev.EC)
+		}
+		c.blockErr = ErrClass(ev.EC) // the hash is served, the block is not
 	}
 	var h chainhash.Hash
 	big.NewInt(height).FillBytes(h[8:16])
@@ -472,9 +539,13 @@ func (c *btcConn) GetBlockHash(height int64) (*chainhash.Hash, error) {
 func (c *btcConn) GetBlockVerboseTx(h *chainhash.Hash) (*btcjson.GetBlockVerboseTxResult, error) {
 	if *h == headMarker {
 		if c.head < 0 {
-			return nil, errScript
+			return nil, c.env.lastRPCErr()
 		}
 		return &btcjson.GetBlockVerboseTxResult{Height: c.head}, nil
+	}
+	if err := c.blockErr; err != nil {
+		c.blockErr = nil
+		return nil, err
 	}
 	height := new(big.Int).SetBytes(h[8:16]).Int64()
 	blk := &btcjson.GetBlockVerboseTxResult{Height: height}
@@ -598,6 +669,7 @@ func Project(m *message.Message) Msg {
 	if d, ok := m.Data.(transfer.TransferMessageData); ok {
 		out.Nonce = d.DepositNonce
 		out.Resource = hex.EncodeToString(d.ResourceId[:1])
+		out.RID = hex.EncodeToString(d.ResourceId[:])
 	}
 	return out
 }
@@ -628,7 +700,7 @@ func lifetime(env *Env, db *kv, cfg Cfg, w Wiring, msgChan chan []*message.Messa
 	case "evm":
 		client := &evmClient{env: env}
 		hs := []corelistener.EventHandler{
-			eventHandlers.NewDepositEventHandler(&evmFetcher{env: env}, evmDepositHandler{}, common.Address{}, DomainID, msgChan)}
+			eventHandlers.NewDepositEventHandler(evmevents.NewListener(newEvmLogClient(env)), evmDepositHandler{}, common.Address{}, DomainID, msgChan)}
 		for k := 1; k < cfg.NH; k++ {
 			hs = append(hs, &rangeHandler{env: env, k: k})
 		}
